@@ -202,12 +202,12 @@ def shard_accessor(spec, R):
 def plan(tier, seed):
     q = tier == "quick"
     specs = []
-    for i in range(6 if q else 12):
-        specs.append({"kind": "gu", "sub": i, "cases": 400 if q else 4000, "budget_s": 120 if q else 1200})
-    for i in range(7 if q else 14):
-        specs.append({"kind": "pgu", "sub": i, "cases": 300 if q else 3000, "budget_s": 120 if q else 1200})
-    for i in range(3 if q else 6):
-        specs.append({"kind": "accessor", "sub": i, "cases": 24 if q else 150, "budget_s": 120 if q else 1200})
+    for i in range(6 if q else 16):
+        specs.append({"kind": "gu", "sub": i, "cases": 400 if q else 15000, "budget_s": 120 if q else 600})
+    for i in range(7 if q else 16):
+        specs.append({"kind": "pgu", "sub": i, "cases": 300 if q else 10000, "budget_s": 120 if q else 600})
+    for i in range(3 if q else 8):
+        specs.append({"kind": "accessor", "sub": i, "cases": 24 if q else 600, "budget_s": 120 if q else 600})
     return specs
 
 
